@@ -313,3 +313,12 @@ pub fn quiet_panics() {
 pub fn f64_json(v: &[f64]) -> Value {
     Value::Array(v.iter().map(|x| if x.is_finite() { json!(x) } else { json!(format!("{}", x)) }).collect())
 }
+
+/// gathers the event counters of the main thread and of every rayon worker thread into the report
+pub fn collect_ticks(rep: &mut Report) {
+    let t = probminhash::verif::take_counters();
+    rep.add_ticks(&t);
+    for t in rayon::broadcast(|_| probminhash::verif::take_counters()) {
+        rep.add_ticks(&t);
+    }
+}
